@@ -166,7 +166,11 @@ func (t *Collection) ExistAny(key interface{}) bool {
 // Exist returns true if the key exists in the collection
 func (t *Collection) Exist(key []byte) bool {
 	val, _ := t.GetItem(key, false)
-	return val != nil
+	if val == nil {
+		return false
+	}
+	t.store.ItemDecRef(t, val)
+	return true
 }
 
 // SetItem in a collection
@@ -478,6 +482,7 @@ func (t *Collection) VisitItemsRandom(
 	if err != nil || si == nil {
 		return err // An empty collection has nothing to visit.
 	}
+	defer t.store.ItemDecRef(t, si)
 	err = t.VisitItemsAscendEx(si.Key, false, v)
 	if err != nil {
 		return err
@@ -543,6 +548,7 @@ func (t *Collection) VisitItemsAscendBlockEx(
 	if err != nil || si == nil {
 		return err // An empty collection has nothing to visit.
 	}
+	defer t.store.ItemDecRef(t, si)
 	err = t.VisitItemsAscendEx(si.Key, false, v)
 	if err != nil {
 		return err
@@ -610,6 +616,7 @@ func (t *Collection) Len() (l int64, err error) {
 	if err != nil || si == nil {
 		return // An empty collection has length 0.
 	}
+	defer t.store.ItemDecRef(t, si)
 	err = t.VisitItemsAscendEx(si.Key, false, visitor)
 	return
 }
